@@ -1330,6 +1330,129 @@ theorem alg_laws {V : Type} (g1 : G1) (Hm : M → G2) (droot : DepositMsg G1 →
 end Algebra
 
 
+/-! ### the cluster-changing protocols: assembling the new lock -/
+
+section Protocols
+variable {PK SK Sig V : Type}
+
+/-- `MsgFromShare` on a `PublicShares` map whose keys are any strictly increasing sequence
+`key 0 < key 1 < … < key (n'-1)` (remove-operators: the ORIGINAL share indices of the operators that
+stay): position `r` of the result is the value filed under `key r`. -/
+theorem msgPubShares_sorted (n' : Nat) (key : Nat → Nat) (hmono : ∀ a b, a < b → b < n' → key a < key b)
+    (psh : Nat → PK) (s : Share PK SK)
+    (hkeys : (s.pubShares.map Prod.fst).Perm ((List.range n').map key))
+    (hvals : ∀ r < n', get? s.pubShares (key r) = some (psh r)) :
+    msgPubShares s = (List.range n').map psh := by
+  unfold msgPubShares
+  have hsorted : ((List.range n').map key).Pairwise (· ≤ ·) := by
+    rw [List.pairwise_map]
+    refine List.Pairwise.imp_of_mem ?_ (List.pairwise_lt_range (n := n'))
+    intro a b _ hb hab
+    exact Nat.le_of_lt (hmono a b hab (List.mem_range.mp hb))
+  have hsort : sortNat (s.pubShares.map Prod.fst) = (List.range n').map key := by
+    rw [sortNat_eq]
+    exact List.Perm.eq_of_pairwise' (r := (· ≤ ·)) (List.pairwise_insertionSort _ _) hsorted
+      ((List.perm_insertionSort _ _).trans hkeys)
+  rw [hsort, List.filterMap_map]
+  rw [List.filterMap_congr (f := get? s.pubShares ∘ key) (g := fun r => some (psh r))
+    (fun r hr => hvals r (List.mem_range.mp hr))]
+  show List.filterMap (some ∘ psh) _ = _
+  rw [List.filterMap_eq_map]
+
+theorem updateLockValidators_keeps {PK SK Sig : Type} (oldVals : List (DistValidator PK Sig)) (shares : List (Share PK SK))
+    (new : List (DistValidator PK Sig)) (h : updateLockValidators oldVals shares = some new) :
+    new.map (·.pubKey) = oldVals.map (·.pubKey) ∧ new.map (·.deposits) = oldVals.map (·.deposits) ∧
+    new.map (·.reg) = oldVals.map (·.reg) ∧ new.length = oldVals.length := by
+  unfold updateLockValidators at h
+  by_cases hl : shares.length < oldVals.length
+  · simp [hl] at h
+  · simp only [hl, if_false, Option.some.injEq] at h
+    subst h
+    have hfst : (oldVals.zip shares).map Prod.fst = oldVals := List.map_fst_zip (by omega)
+    refine ⟨?_, ?_, ?_, ?_⟩
+    · conv_rhs => rw [← hfst]
+      simp [List.map_map, Function.comp_def]
+    · conv_rhs => rw [← hfst]
+      simp [List.map_map, Function.comp_def]
+    · conv_rhs => rw [← hfst]
+      simp [List.map_map, Function.comp_def]
+    · simp; omega
+
+section Ops
+variable {O : Type} [DecidableEq O]
+
+theorem mem_removeOperators (ops removing : List O) (o : O) :
+    o ∈ removeOperators ops removing ↔ o ∈ ops ∧ o ∉ removing := by
+  simp [removeOperators]
+
+theorem removeOperators_sublist (ops removing : List O) : (removeOperators ops removing).Sublist ops :=
+  List.filter_sublist
+
+/-- the original share indices of the operators that stay are strictly increasing. -/
+theorem remainingShareIdx_increasing (ops removing : List O) :
+    (remainingShareIdx ops removing).Pairwise (· < ·) := by
+  unfold remainingShareIdx
+  refine List.Pairwise.filterMap _ ?_ (List.pairwise_lt_range (n := ops.length))
+  intro a a' haa b hb b' hb'
+  cases h1 : ops[a]? with
+  | none => simp [h1] at hb
+  | some o =>
+    cases h2 : ops[a']? with
+    | none => simp [h2] at hb'
+    | some o' =>
+      simp only [h1, h2] at hb hb'
+      split at hb <;> split at hb' <;> simp at hb hb'
+      omega
+
+theorem removeThreshold_spec (n removed newT x : Nat) (h : removeThreshold n removed newT = some x) :
+    clusterThreshold (n - removed) ≤ x ∧ (newT ≠ 0 → x = newT ∧ x < n - removed) := by
+  unfold removeThreshold at h
+  by_cases h0 : newT = 0
+  · simp [h0] at h; subst h; exact ⟨Nat.le_refl _, fun hh => absurd h0 hh⟩
+  · simp only [ne_eq, h0, not_false_eq_true, if_true] at h
+    split at h
+    · cases h
+    · rename_i hc
+      cases h
+      exact ⟨by omega, fun _ => ⟨rfl, by omega⟩⟩
+
+theorem replaceOperator_spec (ops : List O) (old new : O) (l : List O) (h : replaceOperator ops old new = some l) :
+    l.length = ops.length ∧ ∃ i, ops[i]? = some old ∧ l = ops.set i new := by
+  unfold replaceOperator at h
+  cases hi : ops.idxOf? old with
+  | none => simp [hi] at h
+  | some i =>
+    simp only [hi, Option.some.injEq] at h
+    subst h
+    obtain ⟨hlt, hget, _⟩ := List.idxOf?_eq_some_iff.mp hi
+    exact ⟨by simp, i, by simp [hlt, hget], rfl⟩
+
+end Ops
+
+theorem updateLockValidators_pubShares {PK SK Sig V : Type} (n' : Nat) (key : Nat → Nat)
+    (hmono : ∀ a b, a < b → b < n' → key a < key b) (vals : List V) (psh : Nat → V → PK)
+    (shares : List (Share PK SK))
+    (hsh : List.Forall₂ (fun s v => (s.pubShares.map Prod.fst).Perm ((List.range n').map key) ∧
+      ∀ r < n', get? s.pubShares (key r) = some (psh r v)) shares vals)
+    (oldVals : List (DistValidator PK Sig)) (hlen : oldVals.length = vals.length) :
+    ∃ new, updateLockValidators oldVals shares = some new ∧
+      new.map (·.pubShares) = vals.map fun v => (List.range n').map fun r => psh r v := by
+  have hl : ¬ shares.length < oldVals.length := by rw [hlen, List.Forall₂.length_eq hsh]; omega
+  refine ⟨(oldVals.zip shares).map fun vs => { vs.1 with pubShares := msgPubShares vs.2 }, ?_, ?_⟩
+  · unfold updateLockValidators; simp only [hl, if_false]
+  clear hl
+  induction hsh generalizing oldVals with
+  | nil => cases oldVals <;> simp_all
+  | @cons s v shares' vals' hsv _ ih =>
+    cases oldVals with
+    | nil => simp at hlen
+    | cons ov rest =>
+      simp only [List.zip_cons_cons, List.map_cons, List.cons.injEq]
+      refine ⟨msgPubShares_sorted n' key hmono (fun r => psh r v) s hsv.1 hsv.2, ?_⟩
+      exact ih rest (by simpa using hlen)
+
+end Protocols
+
 /-! ### a small computable instance (non-vacuity examples) -/
 
 section Toy
